@@ -36,9 +36,20 @@ KwGet(kw, key) == LET hits == {k \in 1 .. Len(kw) : kw[k][1] = key} IN IF hits =
 KwDrop(kw, key) == SelectSeq(kw, LAMBDA e : e[1] # key)
 AttnNames == <<"attn_mask", "dropout_p", "is_causal">>
 
-\* ---- the algorithm: _replace_with_quantised on one node
-RewriteNode(n) ==
-  LET args == n.args
+\* the tensor operands by ROLE: positional, or by keyword (TorchDynamo keeps the caller's argument style).  Positional(n) moves the
+\* role-named keywords that continue the positional prefix into position.
+RoleNames(n) == IF n.tgt \in AttnTargets THEN <<"query", "key", "value">> ELSE <<"input", "weight", "bias">>
+RECURSIVE PositionalFrom(_, _, _)
+PositionalFrom(n, args, kw) ==
+  IF Len(args) >= 3 \/ KwGet(kw, RoleNames(n)[Len(args) + 1]) = <<>> THEN [n EXCEPT !.args = args, !.kw = kw]
+  ELSE PositionalFrom(n, Append(args, KwGet(kw, RoleNames(n)[Len(args) + 1])[1]), KwDrop(kw, RoleNames(n)[Len(args) + 1]))
+Positional(n) == IF Len(n.args) >= 3 THEN n ELSE PositionalFrom(n, n.args, n.kw)
+
+\* ---- the algorithm: _replace_with_quantised on one node (before the fix only `bias` was looked up among the keywords and only when
+\* exactly two operands were positional: Legacy "kw_operands_unsupported")
+RewriteNode(n0) ==
+  LET n == IF Legacy \cap {"kw_operands_unsupported", "bias_kw_ignored"} # {} THEN n0 ELSE Positional(n0)
+      args == n.args
       twoArgs == Len(args) = 2
       biasKw == KwGet(n.kw, "bias")
       a3 == IF twoArgs THEN Append(args, IF "bias_kw_ignored" \in Legacy THEN NoneArg ELSE IF biasKw = <<>> THEN NoneArg ELSE biasKw[1]) ELSE args
@@ -72,11 +83,12 @@ ExpandFrom(g, k, base) ==
 Expand(g) == ExpandFrom(g, 1, FreshId(g) - 1)
 
 \* ---- the recipe, straight from the input graph
-RecipeNode(n, base) ==
-  LET isAttn == n.tgt \in AttnTargets
+RecipeNode(n0, base) ==
+  LET n == Positional(n0)
+      isAttn == n.tgt \in AttnTargets
       nq == IF isAttn THEN 3 ELSE 2
       qs == [k \in 1 .. nq |-> Mk(base + k, "Qf", <<FWD, n.args[k]>>, <<>>)]
-      \* operands by position: a linear's bias (3rd positional or keyword) and everything else is left alone
+      \* operands by role (input / weight, query / key / value); a linear's bias and everything else is left alone
       core == Mk(base + nq + 1, n.tgt, [k \in 1 .. Len(n.args) |-> IF k <= nq THEN <<"n", base + k>> ELSE n.args[k]], n.kw)
   IN qs \o <<core, Mk(n.id, "Qb", <<BWD, <<"n", base + nq + 1>>>>, <<>>)>>
 RECURSIVE RecipeFrom(_, _, _)
@@ -88,7 +100,8 @@ Recipe(g) == RecipeFrom(g, 1, FreshId(g) - 1)
 
 \* ---- comparison up to argument-passing style: a call is normalised to (positional tensors..., keyword set) where a
 \* linear's bias and attention's mask / dropout / causal flag are keywords, and an absent / None bias is omitted
-NormCall(n) ==
+NormCall(n0) ==
+  LET n == IF n0.op = "call" /\ n0.tgt \in Quantisable THEN Positional(n0) ELSE n0 IN
   IF n.op # "call" THEN n
   ELSE IF n.tgt \in LinearTargets THEN
     LET b == IF Len(n.args) >= 3 THEN <<n.args[3]>> ELSE KwGet(n.kw, "bias")
